@@ -20,7 +20,8 @@ pub fn generate(thorough: bool, seed: u64, em: &mut Emitter) {
         if i % 2 == 1 {
             // exactly one invalid path, of one kind, at a random position of the list
             let kind = *r.pick(&["unknown_member", "index_out_of_range", "non_numeric_index", "no_leading_slash", "empty_path",
-                                 "inside_disclosed", "through_scalar", "member_of_array", "negative_index", "index_overflow", "reserved_name"]);
+                                 "inside_disclosed", "through_scalar", "member_of_array", "negative_index", "index_overflow", "reserved_name",
+                                 "into_digest_list", "repeat_array_element", "repeat_member", "into_placeholder"]);
             let nodes = gen::all_nodes(&claims);
             let mut paths: Vec<String> = marks.iter().map(gen::render).collect();
             let bad: Option<(String, usize)> = match kind {
@@ -61,6 +62,28 @@ pub fn generate(thorough: bool, seed: u64, em: &mut Emitter) {
                         paths.retain(|p| !p.starts_with(&gen::render(&anc)));
                         paths.push(gen::render(&anc));
                         Some((gen::render(&d), paths.len()))
+                    }
+                }
+                "into_digest_list" | "repeat_array_element" | "repeat_member" | "into_placeholder" => {
+                    // paths that resolve only in the issuer's working copy, into digest bookkeeping created by an
+                    // earlier path of the same list: no member or element of the claims is addressed by them
+                    let want_idx = kind == "repeat_array_element" || kind == "into_placeholder";
+                    let cands: Vec<&gen::TPath> = nodes.iter().filter(|p| matches!(p.last(), Some(Tok::Idx(_))) == want_idx).collect();
+                    if cands.is_empty() {
+                        None
+                    } else {
+                        let first = (*r.pick(&cands)).clone();
+                        let fs = gen::render(&first);
+                        // keep only marks that do not interfere with `first`
+                        paths.retain(|p| !p.starts_with(&fs) && !fs.starts_with(p.as_str()));
+                        paths.push(fs.clone());
+                        let parent = gen::render(&first[..first.len() - 1].to_vec());
+                        let second = match kind {
+                            "into_digest_list" => format!("{}/_sd/0", parent),
+                            "into_placeholder" => format!("{}/...", fs),
+                            _ => fs.clone(),
+                        };
+                        Some((second, paths.len()))
                     }
                 }
                 "reserved_name" => {
